@@ -485,7 +485,13 @@ class Frame(Widget, WidgetContainerMixin, typing.Generic[BodyWidget, HeaderWidge
             combinelist.append((foot, "footer", self.focus_part == "footer"))
             depends_on.append(self.footer)
 
-        return CanvasCombine(combinelist)
+        canv = CanvasCombine(combinelist)
+        # a header or footer that is not shown (it has no rows, or there is no room for it) decides the
+        # layout again as soon as its content changes: the canvas keeps depending on it
+        hidden = [w for w, shown in ((self.header, head), (self.footer, foot)) if w is not None and not shown]
+        if hidden:
+            canv.set_depends(depends_on + hidden)
+        return canv
 
     def keypress(
         self,
